@@ -240,7 +240,7 @@ impl Property for C03 {
     }
     fn budget(&self, tier: Tier) -> u64 {
         match tier {
-            Tier::Quick => 6_000,
+            Tier::Quick => 20_000,
             Tier::Thorough => 600_000,
         }
     }
